@@ -2,7 +2,7 @@
    one token list out, mirroring harness/src/ops.rs line for line.  Evaluated both by the
    extracted OCaml driver and (on a sample) inside Coq by vm_compute. *)
 From Coq Require Import String.
-From TlshV Require Import Model.Machine Model.Tokens Gen.Tables Model.MLength.
+From TlshV Require Import Model.Machine Model.Tokens Gen.Tables Model.MLength Model.MHexStr Model.MHash.
 Open Scope string_scope.
 Open Scope list_scope.
 Open Scope N_scope.
@@ -13,15 +13,28 @@ Record mcfg := {
   c_unsafe : bool;          (* feature unsafe *)
   c_dbg : bool;             (* debug assertions / overflow checks *)
   c_len : len_cfg;
+  c_dec : hex_dec;
+  c_enc : hex_enc;
+  c_simd_parse : bool;
+  c_simd_convert : bool;
 }.
 
+Definition hcfg_of (c : mcfg) : hcfg :=
+  {| hc_strict := c_strict c; hc_dec := c_dec c; hc_enc := c_enc c;
+     hc_simd_parse := c_simd_parse c; hc_simd_convert := c_simd_convert c;
+     hc_unsafe := c_unsafe c; hc_dbg := c_dbg c |}.
+
 Definition default_cfg : mcfg :=
-  {| c_strict := false; c_unsafe := false; c_dbg := true; c_len := LenClz |}.
+  {| c_strict := false; c_unsafe := false; c_dbg := true; c_len := LenClz;
+     c_dec := DecFull; c_enc := EncFull; c_simd_parse := true; c_simd_convert := true |}.
 
 Definition cfg_of_flags (fl : list N) : mcfg :=
   let has k := existsb (N.eqb k) fl in
   {| c_strict := has 1; c_unsafe := has 2; c_dbg := negb (has 3);
-     c_len := if has 4 then LenWhole else LenClz |}.
+     c_len := if has 4 then LenWhole else LenClz;
+     c_dec := if has 12 then DecMin else if has 11 then DecQuarter else if has 10 then DecHalf else DecFull;
+     c_enc := if has 14 then EncMin else if has 13 then EncHalf else EncFull;
+     c_simd_parse := has 15; c_simd_convert := has 16 |}.
 
 Definition show_perr (e : parse_error) : tok :=
   match e with
@@ -105,14 +118,158 @@ Definition dispatch_len (c : mcfg) (op : tok) (args : list tok) : option (list t
           ++ [S "run"; TN (len_max + 1); S "none"; S ";"])
   else None.
 
+Definition variant_of (t : tok) : option variant :=
+  if is_sym t "S" then Some V_Short
+  else if is_sym t "N" then Some V_Normal
+  else if is_sym t "NL" then Some V_NormalLong
+  else if is_sym t "L" then Some V_Long
+  else if is_sym t "LL" then Some V_LongLong
+  else None.
+
+Definition prefix_mode_of (t : tok) : option (option prefix) :=
+  if is_sym t "auto" then Some None
+  else if is_sym t "empty" then Some (Some PEmpty)
+  else if is_sym t "with" then Some (Some PWithVersion)
+  else None.
+
+Definition show_hash_res (r : outcome parse_error hash) : list tok :=
+  out_or r (fun h => [S "ok"; TB (hash_bytes h)]) (fun e => [S "err"; show_perr e]).
+
+(* operations that first build a hash from its binary form through TryFrom<&[u8]> *)
+Definition with_hash (c : mcfg) (v : variant) (bin : list N) (k : hash -> list tok) : list tok :=
+  out_or (from_slice (hcfg_of c) v bin) k (fun e => [S "hasherr"; show_perr e]).
+
+Definition show_store (r : outcome op_error N * list N) : list tok :=
+  match r with
+  | (Ok k, o) => [S "ok"; TN k; TB o]
+  | (Err BufferIsTooSmall, o) => [S "err"; S "BufferIsTooSmall"; TB o]
+  | (Panic, _) => [S "PANIC"]
+  | (UB, _) => [S "UB"]
+  end.
+
+Definition all_quartiles (v : variant) (h : hash) : outcome unit (list N) :=
+  fold_right (fun i acc => do q <- quartile v h i; do r <- acc; Ok (q :: r)) (Ok [])
+    (map N.of_nat (seq 0 (N.to_nat (nb_of (v_bk v))))).
+
+Definition dispatch_hash (c : mcfg) (op : tok) (args : list tok) : option (list tok) :=
+  let hc := hcfg_of c in
+  if is_sym op "parse" then
+    match args with
+    | [vt; mt; TB bytes] =>
+        match variant_of vt, prefix_mode_of mt with
+        | Some v, Some m => Some (show_hash_res (parse hc v bytes m))
+        | _, _ => Some bad
+        end
+    | _ => Some bad
+    end
+  else if is_sym op "fromstr" then
+    match args with
+    | [vt; TB bytes] =>
+        match variant_of vt with
+        | Some v => Some (show_hash_res (parse hc v bytes None))
+        | _ => Some bad
+        end
+    | _ => Some bad
+    end
+  else if is_sym op "frombytes" then
+    match args with
+    | [vt; TB bytes] =>
+        match variant_of vt with
+        | Some v => Some (show_hash_res (from_slice hc v bytes))
+        | _ => Some bad
+        end
+    | _ => Some bad
+    end
+  else if is_sym op "fromarray" then
+    match args with
+    | [vt; TB bytes] =>
+        match variant_of vt with
+        | Some v => if lenN bytes =? size_in_bytes v then Some (show_hash_res (from_array hc v bytes)) else Some bad
+        | _ => Some bad
+        end
+    | _ => Some bad
+    end
+  else if is_sym op "fmt" then
+    match args with
+    | [vt; TB bin; mt; TB buf] =>
+        match variant_of vt, prefix_mode_of mt with
+        | Some v, Some (Some p) => Some (with_hash c v bin (fun h => show_store (store_str hc v h p buf)))
+        | _, _ => Some bad
+        end
+    | _ => Some bad
+    end
+  else if is_sym op "storebytes" then
+    match args with
+    | [vt; TB bin; TB buf] =>
+        match variant_of vt with
+        | Some v => Some (with_hash c v bin (fun h => show_store (store_bytes v h buf)))
+        | _ => Some bad
+        end
+    | _ => Some bad
+    end
+  else if is_sym op "display" then
+    match args with
+    | [vt; TB bin] =>
+        match variant_of vt with
+        | Some v => Some (with_hash c v bin (fun h => out_or (display hc v h) (fun s => [TB s]) (fun _ => bad)))
+        | _ => Some bad
+        end
+    | _ => Some bad
+    end
+  else if is_sym op "consts" then
+    match args with
+    | [vt] =>
+        match variant_of vt with
+        | Some v => Some [TN (nb_of (v_bk v)); TN (size_in_bytes v); TN (len_in_str_except_prefix v);
+                          TN (len_in_str v); TN (v_cks v); TN (size_body v); TN (nb_of (v_bk v))]
+        | _ => Some bad
+        end
+    | _ => Some bad
+    end
+  else if is_sym op "parts" then
+    match args with
+    | [vt; TB bin] =>
+        match variant_of vt with
+        | Some v => Some (with_hash c v bin (fun h =>
+            out_or (all_quartiles v h)
+              (fun qs => [TB (h_cks h); TN (h_len h); TN (h_q h); TN (q1ratio h); TN (q2ratio h);
+                          TB (h_body h); TB qs; b01 (checksum_is_valid v (h_cks h)); b01 (is_valid (h_len h))])
+              (fun _ => bad)))
+        | _ => Some bad
+        end
+    | _ => Some bad
+    end
+  else if is_sym op "quartile" then
+    match args with
+    | [vt; TB bin; TN i] =>
+        match variant_of vt with
+        | Some v => Some (with_hash c v bin (fun h => out_or (@quartile unit v h i) (fun q => [TN q]) (fun _ => bad)))
+        | _ => Some bad
+        end
+    | _ => Some bad
+    end
+  else if is_sym op "clearcks" then
+    match args with
+    | [vt; TB bin] =>
+        match variant_of vt with
+        | Some v => Some (with_hash c v bin (fun h => [TB (hash_bytes (clear_checksum h))]))
+        | _ => Some bad
+        end
+    | _ => Some bad
+    end
+  else None.
+
 Definition dispatch (c : mcfg) (line : list tok) : list tok :=
   match line with
   | [] => bad
   | op :: args =>
       match dispatch_len c op args with
       | Some r => r
+      | None =>
+      match dispatch_hash c op args with
+      | Some r => r
       | None => [S "MODEL-UNKNOWN-OP"]
-      end
+      end end
   end.
 
 Definition dispatch_flags (fl : list N) (line : list tok) : list tok :=
